@@ -28,6 +28,7 @@ func init() {
 		{Name: "bool-not-written-into-last-byte", Rule: "R1.4", Where: "(wbool).fill", Edits: []Edit{{"wiretypes.go", "\tif len(data) >= i+1 {\n\t\tif v {", "\tif len(data) > i+1 {\n\t\tif v {"}}},
 		{Name: "u16-width-disagrees-with-encoder", Rule: "R1.4", Where: "wire type wuint16#width", Edits: []Edit{{"wiretypes.go", "func (v wuint16) width() int { return 2 }", "func (v wuint16) width() int { return 3 }"}}},
 		{Name: "raw-payload-never-copied", Rule: "R1.4", Where: "wire type rawdata", Edits: []Edit{{"wiretypes.go", "\tif len(data) >= i+v.width() {\n\t\treturn copy(data[i:], []byte(v))\n\t}\n\treturn v.width()", "\treturn v.width()"}}},
+		{Name: "user-property-key-and-value-share-a-variable", Rule: "R1.4", Where: "wire type UserProp", Edits: []Edit{{"wiretypes.go", "\tvar val wstring\n\tif err := val.UnmarshalBinary(data[i:]); err != nil {\n\t\treturn unmarshalErr(v, \"value\", err.(*Malformed))\n\t}\n\tv[1] = string(val)", "\tif err := key.UnmarshalBinary(data[i:]); err != nil {\n\t\treturn unmarshalErr(v, \"value\", err.(*Malformed))\n\t}\n\tv[1] = string(key)"}}},
 		{Name: "u32-little-endian-decoder", Rule: "R1.4", Where: "wuint32", Edits: []Edit{{"wiretypes.go", "\t*v = wuint32(binary.BigEndian.Uint32(data))", "\t*v = wuint32(binary.LittleEndian.Uint32(data))"}}},
 		{Name: "unsubscribe-filter-list-decoded-once", Rule: "R1.1", Where: "Unsubscribe", Edits: []Edit{{"unsubscribe.go", "\t\tp.filters = append(p.filters, f)\n\t\tif b.i == len(data) {\n\t\t\tbreak\n\t\t}", "\t\tp.filters = append(p.filters, f)\n\t\tbreak"}}},
 		{Name: "subscription-ids-emitted-once", Rule: "R1.2", Where: "Publish", Edits: []Edit{{"publish.go", "\tfor j, _ := range p.subscriptionIDs {\n\t\ti += vbint(p.subscriptionIDs[j]).fillProp(b, i, SubscriptionID)\n\t}", "\tif len(p.subscriptionIDs) > 0 {\n\t\ti += vbint(p.subscriptionIDs[0]).fillProp(b, i, SubscriptionID)\n\t}"}}},
@@ -533,7 +534,58 @@ func (p *Prog) checkCodecPairing(c *Check) {
 		case "vbi":
 			c.OK("R1.4", cons, pos, "structural agreement of encoder and decoders: C15")
 		case "pair":
-			c.OK("R1.4", cons, pos, "key then value, each a length-prefixed string (decoder offset 2+len(key) proven in C04 via the length-prefix lemma)")
+			// decoder: key and value are decoded into two different fresh strings, the value from offset
+			// 2+len(key) (its slice obligation is proven with the length-prefix lemma, which needs an empty
+			// receiver), and stored into element 0 and element 1
+			why := ""
+			srcOf := map[int64]ssa.Value{}
+			for _, b := range d.Blocks {
+				for _, ins := range b.Instrs {
+					st, ok := ins.(*ssa.Store)
+					if !ok {
+						continue
+					}
+					ia, ok := st.Addr.(*ssa.IndexAddr)
+					if !ok || ia.X != ssa.Value(d.Params[0]) {
+						continue
+					}
+					k, isC := constInt(ia.Index)
+					if !isC {
+						why = "a store into the pair at a non-constant index"
+						continue
+					}
+					if ld, ok := stripConvs(st.Val).(*ssa.UnOp); ok && ld.Op == token.MUL {
+						srcOf[k] = ld.X
+					} else {
+						why = "an element of the pair is not stored from a decoded string"
+					}
+				}
+			}
+			a0, ok0 := srcOf[0].(*ssa.Alloc)
+			a1, ok1 := srcOf[1].(*ssa.Alloc)
+			switch {
+			case why != "":
+			case !ok0 || !ok1:
+				why = "key and value are not decoded into local strings"
+			case a0 == a1:
+				why = "key and value are decoded into the same variable: an empty value keeps the key's bytes (the length-prefixed decoder does not reset its receiver)"
+			}
+			if why == "" {
+				sub := NewCheck(c.ID, p)
+				e, _ := p.decodeEffects()
+				p.runSafety(sub, safetyCfg{rule: "R1.4", roots: []*ssa.Function{d}, eff: e, scopeTag: "dec"})
+				for _, o := range sub.Failing() {
+					if strings.HasPrefix(o.Construct, qname(d)+"#") {
+						why = "the value is not provably read from offset 2+len(key): " + o.Detail
+						break
+					}
+				}
+			}
+			if why == "" {
+				c.OK("R1.4", cons, pos, "key then value, each decoded into its own fresh string; value read from offset 2+len(key) (length-prefix lemma); stored into element 0 and 1")
+			} else {
+				c.Bad("R1.4", cons, pos, why)
+			}
 		default:
 			c.Unk("R1.4", cons, pos, "wire kind not recognised")
 		}
